@@ -193,6 +193,72 @@ def imul(ctx: Ctx, rep: Report) -> None:
     )
 
 
+def batchshift(ctx: Ctx, rep: Report) -> None:
+    """BATCHSHIFT: unfolding a block inserts cycles in front of the other
+    operations of its own cycle.  A batch editor that unfolds several points
+    and visits them in descending order is safe across cycles only; the
+    loop that calls `self.unfold` must also read `self.num_cycles` to learn
+    by how much the remaining points of the same cycle moved."""
+    R = 'BATCHSHIFT'
+    f = ctx.fn(CIRC + 'batch_unfold')
+    rep.seen(f.qualname)
+    loops = [
+        lp for lp in ast.walk(f.node) if isinstance(lp, (ast.For, ast.While))
+        and any(isinstance(c, ast.Call) and norm(c.func) == 'self.unfold'
+                for c in ast.walk(lp))
+    ]
+    rep.count()
+    ok = bool(loops) and all(
+        any(isinstance(x, ast.Attribute) and x.attr == 'num_cycles'
+            for x in ast.walk(lp)) for lp in loops)
+    rep.check(
+        ok, R, 'Circuit.batch_unfold', f.path, f.lineno,
+        'the unfolding loop measures the growth of the circuit',
+        'Circuit.batch_unfold unfolds the points one after the other '
+        'without reading self.num_cycles: the other CircuitGates of the '
+        'same cycle are pushed right by the unfolded block and the next '
+        'point holds no operation (IndexError, circuit left half unfolded)',
+        key='same-cycle',
+    )
+
+
+def idlerow(ctx: Ctx, rep: Report) -> None:
+    """IDLEROW: invariant 1 of Circuit - no idle cycle.  A method that
+    vacates grid slots (`self._circuit[row][q] = None`) tests rows for
+    idleness afterwards (`self._is_cycle_idle`), *after* the vacating
+    store; `straighten` only looked at the rows it filled."""
+    R = 'IDLEROW'
+    n = 0
+    cls = ctx.index.cls('bqskit/ir/circuit.py:Circuit')
+    for f in cls.methods.values():
+        stores = [
+            s for s in ast.walk(f.node) if isinstance(s, ast.Assign)
+            and isinstance(s.value, ast.Constant) and s.value.value is None
+            and any(isinstance(t, ast.Subscript) and norm(t).startswith(
+                'self._circuit[') for t in s.targets)
+        ]
+        if not stores:
+            continue
+        n += 1
+        rep.count()
+        rep.seen(f.qualname)
+        last = max(s.lineno for s in stores)
+        idle = [
+            k for k in ast.walk(f.node) if isinstance(k, ast.Call)
+            and norm(k.func).endswith('_is_cycle_idle') and k.lineno > last
+        ]
+        rep.check(
+            bool(idle), R, f'Circuit.{f.name}', f.path, last,
+            'rows are tested for idleness after slots were vacated',
+            f'Circuit.{f.name} stores None into grid slots and never tests '
+            'a row with _is_cycle_idle afterwards: a row that held only '
+            'the removed / moved operations stays in the circuit as an '
+            'idle cycle',
+            key='vacated',
+        )
+    rep.floor(R, n, 2, 'methods that vacate grid slots')
+
+
 _POS = '''
 def f(self, op, loc):
     op._location = loc
